@@ -437,7 +437,13 @@ func runChild(exe string, p *Prop, id, tier string, seed int64, b, nb, onlyCase 
 	cmd := exec.Command(exe, args...)
 	cmd.Stdout = of
 	cmd.Stderr = of
+	// every temp file of the child lands in a scratch dir removed after it exits
+	scratch, serr := os.MkdirTemp("", fmt.Sprintf("verif-%s-b%d-", id, b))
 	env := os.Environ()
+	if serr == nil {
+		defer os.RemoveAll(scratch)
+		env = append(env, "TMPDIR="+scratch)
+	}
 	env = append(env, "GORACE=halt_on_error=1 exitcode=66", "GOTRACEBACK=all")
 	if p.Env != nil {
 		env = append(env, p.Env(tier, b)...)
